@@ -8,8 +8,10 @@ def dispatch (cmd : String) (j : Json) : Except String Json :=
   | "mystery" => cmdMystery j
   | "gs" => cmdGs j
   | "gs.check" => cmdGsCheck j
+  | "disamb" => cmdDisamb j
   | "classify.f" => cmdClassify (α := Float) j
   | "classify.q" => cmdClassify (α := Rat) j
+  | "wf.f" => cmdWf (α := Float) j
   | "classifyidx.f" => cmdClassifyIdx (α := Float) j
   | "classifyidx.q" => cmdClassifyIdx (α := Rat) j
   | _ => throw s!"unknown command {cmd}"
